@@ -83,8 +83,8 @@ def step (l : Line) : Verdict :=
         | some (f, _) => .bad s!"the {f} form does not parse (writer bug)"
         | none =>
           -- the two decoders on every form
-          match forms.find? (fun (_, v) => match v.splitOn "|" with | [a, b] => a != b | _ => true) with
-          | some (f, v) => .specFail "C19.decoders-disagree" s!"{f} form: the spec-driven and the tag-driven decoder disagree: {v.take 300}"
+          match forms.find? (fun (_, v) => match v.splitOn "|" with | a :: b :: rest => !((b :: rest).all (· == a)) | _ => true) with
+          | some (f, v) => .specFail "C19.decoders-disagree" s!"{f} form: the spec-driven decoder, the tag-driven decoder and the tag-driven decoder in two steps (attributes from the left-over body) disagree: {v.take 300}"
           | none =>
             let results := forms.map fun (f, v) => (f, (v.splitOn "|").headD "")
             let ref := (results.headD ("", "")).2
